@@ -12,6 +12,7 @@ package config
 //@ let cfg = c.Metadata.Config
 //@ ensures.inherit[C17] result != nil && fresh(result) && result.Username == ite(has(cfg, "username"), cfg["username"], c.Username) && result.Password == ite(has(cfg, "password"), cfg["password"], c.Password) && result.Bucket == ite(has(cfg, "bucket"), cfg["bucket"], c.BucketName) && result.Scope == ite(has(cfg, "scope"), cfg["scope"], "_default") && result.Collection == ite(has(cfg, "collection"), cfg["collection"], "_default")
 //@ ensures.hosts[C17] !has(cfg, "hosts") ==> result.Hosts == c.Hosts
+//@ ensures.tls_overrides_win[C17] (has(cfg, "secureConnection") && parseboolok(cfg["secureConnection"]) ==> result.SecureConnection == parsebool(cfg["secureConnection"])) && (has(cfg, "rootCAPath") ==> result.RootCAPath == cfg["rootCAPath"])
 //@ ensures.defaults[C17] (!has(cfg, "maxQueueSize") ==> result.MaxQueueSize == 2048) && (!has(cfg, "connectionBufferSize") ==> result.ConnectionBufferSize == 5242880) && (!has(cfg, "secureConnection") ==> result.SecureConnection == c.SecureConnection) && (!has(cfg, "rootCAPath") ==> result.RootCAPath == c.RootCAPath)
 //@ modifies nothing
 
